@@ -758,7 +758,7 @@ def gen_copy_case(r, cid):
         # class: some attribute has a namespace that the result element does not bind to the SAME prefix
         srcp = src_prefixes(src, k)
         if any(u and dict(wns).get(srcp.get((u, l))) != u for (u, l) in target["attrs"]):
-            force = "KN9"
+            force = KN9_KEY
     sheet = '<xsl:stylesheet version="1.0" xmlns:xsl="%s">%s<xsl:template match="/"><%s%s>%s</%s></xsl:template></xsl:stylesheet>' % (
         XSL, top, wname, nsattrs(wns), inner, wname)
     c = {"id": cid, "sheet": sheet, "source": src, "cls": "copy:" + mode, "want": [wrap], "sheet_obj": None}
@@ -766,6 +766,27 @@ def gen_copy_case(r, cid):
         c["force_known"] = force
     return c
 
+
+
+def fixed_copy_cases():
+    """stored copy / copy-of replays with their own source documents (corpus/C14/kn9_copied_attribute.xsl,
+    seeded/C14_a): (id, source, body of the template, wanted tree, known key or None)"""
+    W = lambda name, attrs=None, kids=(): {"name": name, "attrs": dict(attrs or {}), "lre": False, "excl": set(), "kids": list(kids)}
+    src_a = '<a xmlns:p="urn:outer" xmlns="urn:d-outer"><b xmlns:p="urn:inner" xmlns="urn:d-inner"><p:c><d/></p:c></b></a>'
+    pc = W(("urn:inner", "c"), kids=[W(("urn:d-inner", "d"))])
+    return [
+        ("c_kn9_copied_attribute", '<e0 xmlns:p="u4"><e2 p:b="u5"/></e0>',
+         '<o><xsl:copy-of select="//*[local-name()=\'e2\']/@*"/></o>', [W(("", "o"), {("u4", "b"): "u5"})], KN9_KEY),
+        ("c_kn9_rebound", '<e0 xmlns:p="u4"><e2 p:b="u5"/></e0>',
+         '<o xmlns:p="u7"><xsl:copy-of select="//*[local-name()=\'e2\']/@*"/></o>', [W(("", "o"), {("u4", "b"): "u5"})], KN9_KEY),
+        ("c_seed_a_copyof", src_a, '<o><xsl:copy-of select="//*[local-name()=\'c\']"/></o>', [W(("", "o"), kids=[pc])], None),
+        ("c_seed_a_copy", src_a,
+         '<o><xsl:for-each select="//*[local-name()=\'c\']"><xsl:copy><xsl:for-each select="*"><xsl:copy/></xsl:for-each></xsl:copy></xsl:for-each></o>',
+         [W(("", "o"), kids=[pc])], None),
+    ]
+
+
+KN9_KEY = "KN9"      # known finding while the library is unrepaired; None once the KN9 fix is committed
 
 # ---------------------------------------------------------------------------------------------
 # corpus: replays of the findings (stylesheet bodies; source <doc/>)
@@ -940,6 +961,12 @@ def run(ctx):
             cases.append({"id": "f_" + name, "sheet": text, "source": "<doc/>", "cls": "corpus-file", "want": None,
                           "sheet_obj": None})
     cases = [c for c in cases if c["sheet_obj"] is not None]
+    for cid, src, body, want, key in fixed_copy_cases():
+        c = {"id": cid, "sheet": body_sheet(body), "source": src, "cls": "corpus", "want": want, "sheet_obj": None}
+        if key:
+            c["force_known"] = key
+            expect_known[cid] = key
+        cases.append(c)
 
     def generate(n, tag):
         out = []
